@@ -79,6 +79,14 @@ def handle (op : String) (args : List String) : Option String :=
       match fromValue noPrims true pool 0 v with
       | none => pure "err"
       | some fs => pure ("ok " ++ showPV (normalize pool false (.message 0 fs)))
+  | "c26.pvs", [_, p, v] => do
+    let pool ← poolOfString p
+    let v ← valueOfString v
+    if needsPrims pool rootField v then pure "oom"
+    else
+      match fromValue noPrims false pool 0 v with
+      | none => pure "err"
+      | some fs => pure ("ok " ++ showPV (normalize pool false (.message 0 fs)))
   | "c26.parse", [_, p, pv] => do
     let pool ← poolOfString p
     let pv ← pvOfString pv
